@@ -98,6 +98,13 @@ def truthy(v):
         if v.concrete:
             return z3.BoolVal(len(v.items) > 0)
         raise Unsupported("truthiness of symbolic dict")
+    if isinstance(v, VSet):
+        if v.items is not None:
+            return z3.BoolVal(len(v.items) > 0)
+        x = z3.Const("x!setne", v.arr.sort().domain())
+        return z3.Exists([x], z3.Select(v.arr, x))
+    if isinstance(v, VObj) and v.model is not None and getattr(v.model, "truthy", None):
+        raise Unsupported("model truthiness must go through the interpreter")
     if isinstance(v, (VObj, VFunc, VBuiltin, VClass, VModule, VExc, VRegex)):
         return T()
     if isinstance(v, VOpaque):
